@@ -487,6 +487,34 @@ def deep(p, f, pc, depth=0):
     return f(p)
 
 
+_UC = {}
+
+
+def _unit_candidates(qat):
+    """rational unit 4-vectors (a, b, c, d) / n with 0 < a < b < c << d, all permutations and a few sign patterns"""
+    import itertools, math
+    key = tuple(qat)
+    if key in _UC:
+        return _UC[key]
+    quads = []
+    for a in range(1, 8):
+        for b in range(a + 1, 10):
+            for c in range(b + 1, 12):
+                for d in range(4 * c + 1, 80):
+                    n2 = a * a + b * b + c * c + d * d
+                    n = math.isqrt(n2)
+                    if n * n == n2:
+                        quads.append((a, b, c, d, n))
+    quads = quads[:12]
+    out = []
+    for a, b, c, d, n in quads:
+        for perm in itertools.permutations((a, b, c, d)):
+            for sg in ((1, 1, 1, 1), (1, -1, 1, -1)):
+                out.append({qat[i]: Fraction(perm[i] * sg[i], n) for i in range(4)})
+    _UC[key] = out
+    return out
+
+
 def quat_cast_cases(T, lay, cfg, qt, m3, kt, tg):
     k = K('qcast_rt_' + kt, [Par('o', qt, False), Par('q', qt)], '*o = quat_cast(mat3_cast(*q));', cfg)
     nm = 'quat_cast(mat3_cast(q))<%s>' % tg
@@ -534,6 +562,88 @@ def quat_cast_cases(T, lay, cfg, qt, m3, kt, tg):
                             'parallel: %s (residual %s) ; norm^2 - 1 = %s' % (ok_par, P.show_poly(resid, limit=4) if resid is not None else '0', P.show_poly(n2, limit=4)), kernel=k.source()))
         if len(distinct) < 4:
             res.append(R.ob(nm + '.branches', 'quat_cast', R.UNDECIDED, 'expected the four largest-component branches, found %d distinct results' % len(distinct)))
+        # conditioning of the pivot: every branch divides by sqrt(P) with P = 4 b^2 for its pivot component b.  For a unit q some component has b^2 >= 1/4;
+        # a selection that can take a branch whose pivot is small (P < 1/4, i.e. |b| < 1/4) loses all accuracy although it is exact in real arithmetic.
+        bad = None
+        nrows = 0
+        for vals, got, ctxd in rows:
+            piv = None
+            for g in got:
+                for a_ in g.atoms():
+                    ka = P.atom_key(a_)
+                    if ka[0] == 'inv':
+                        for b_ in ka[1][1].atoms():
+                            kb = P.atom_key(b_)
+                            if kb[0] == 'sqrt':
+                                piv = kb[1][1]
+            if piv is None:
+                continue
+            nrows += 1
+            cons = [(v, infos[at][0] - infos[at][1]) for at, v in zip(atoms, vals) if at[0] == 'pair' and v in ('lt', 'gt')]
+            if not all(P.transparent(e_) for _, e_ in cons) or not P.transparent(piv):
+                continue
+            env = None
+            qat = [m[0] for x_ in q for m in x_.t]
+            # structured candidates first: rational unit quaternions with one dominant component and three distinct small ones, in every arrangement
+            for cand in _unit_candidates(qat):
+                try:
+                    if P.eval_poly(piv, cand) >= Fraction(1, 4):
+                        continue
+                    if all(((P.eval_poly(e_, cand) < 0) if r_ == 'lt' else (P.eval_poly(e_, cand) > 0)) for r_, e_ in cons):
+                        env = cand
+                        break
+                except P.CantEval:
+                    continue
+            if env is None:
+                env = P.find_witness('lt', piv - Poly.const(Fraction(1, 4)), [ONE], extra=cons, spheres=sph(q), tries=200)
+            if env is not None:
+                bad = (env, piv, vals)
+                break
+        if bad:
+            env, piv, vals = bad
+            res.append(R.ob(nm + '.pivot', 'quat_cast', R.REFUTED,
+                            'for the unit quaternion %s the branch taken divides by sqrt(%s) = sqrt(%s): its pivot component is not a large one (every unit quaternion has a component with 4 b^2 >= 1), the result loses its accuracy' % (
+                                P.show_env(env), P.show_poly(piv, limit=4), P.eval_poly(piv, env)), kernel=k.source()))
+        else:
+            # proof on every row that is not contradictory: 4 b^2 - 1 is a sum of (positively oriented) comparison polynomials of the row modulo |q| = 1,
+            # hence positive: the pivot is a largest component
+            (ea,), = [m for m in q[0].t]
+            unitp = lambda x_: P.reduce_ideal(x_, ea, ONE - sum((q[j] * q[j] for j in range(1, 4)), Poly()), deg=2)
+            proved, open_rows = 0, 0
+            for vals, got, ctxd in rows:
+                piv = None
+                for g in got:
+                    for a_ in g.atoms():
+                        ka = P.atom_key(a_)
+                        if ka[0] == 'inv':
+                            for b_ in ka[1][1].atoms():
+                                if P.atom_key(b_)[0] == 'sqrt':
+                                    piv = P.atom_key(b_)[1][1]
+                if piv is None:
+                    continue
+                pos = [(e_ if v == 'gt' else -e_) for v, e_ in [(v, infos[at][0] - infos[at][1]) for at, v in zip(atoms, vals) if at[0] == 'pair' and v in ('lt', 'gt')]]
+                target = unitp(piv - ONE)
+                found = False
+                for r_ in range(0, min(len(pos), 4) + 1):
+                    for sub in itertools.combinations(range(len(pos)), r_):
+                        for mult in itertools.product((1, 2), repeat=len(sub)):
+                            d = target - sum((unitp(pos[i_]).scale(Fraction(m_, 4)) for i_, m_ in zip(sub, mult)), Poly())
+                            if d.is_zero():
+                                found = True
+                                break
+                        if found:
+                            break
+                    if found:
+                        break
+                # a row whose comparisons contradict each other (a > b, b > c, c > a) cannot be taken; it is skipped when some pair of its polynomials sums to zero
+                contradictory = any(sum((unitp(pos[i_]) for i_ in sub_), Poly()).is_zero() for r2_ in range(2, len(pos) + 1) for sub_ in itertools.combinations(range(len(pos)), r2_))
+                if found:
+                    proved += 1
+                elif not contradictory:
+                    open_rows += 1
+            st_ = R.PROVED if (nrows and not open_rows) else R.UNDECIDED
+            res.append(R.ob(nm + '.pivot', 'quat_cast', st_, ('on each of the %d decision rows 4 b^2 - 1 of the pivot is a positive combination of the row\'s own comparisons: the pivot is a largest component' % proved) if st_ == R.PROVED else
+                            '%d rows proved, %d open; no ill-conditioned witness found' % (proved, open_rows), kernel=k.source()))
         return res
     return [R.Case(nm, [k], guard(nm, [k], body))]
 
